@@ -1,5 +1,5 @@
 (* C03 — All query entry points are views of one match relation.  Statements only. *)
-From SV Require Import Base Regex Tree IR Lit Inputs Match MatchFacts ApiFacts.
+From SV Require Import Base Regex Tree IR Lit Inputs Match MatchFacts ApiFacts MemoFacts HistFacts.
 From SV.gen Require Import ApiGen.
 
 (* every module-level function returns what compile(pattern, namespaces, flags, custom=custom)
@@ -30,3 +30,32 @@ Theorem C03_select_limit : forall bidi cx fuel e sels l k m r m',
   select_loop bidi cx fuel e sels l (Some k) m = Ok (r, m') -> (length r <= Nat.max k 1)%nat.
 Proof. exact select_loop_limit. Qed.
 Print Assumptions C03_select_limit.
+
+(* select / iselect / select_one / filter / closest are views of ONE relation: the answer match() gives for the element
+   alone (a fresh matcher), under the scope of the call target.  (HistFacts: the memo shared by the elements of a call
+   never changes an answer.) *)
+Theorem C03_select_is_filter_by_match : forall bidi t ns sels p limit, valid_target t p = true ->
+  let cx := mk_ctx t p in
+  api_select bidi t ns sels p limit =
+  select_pure bidi cx (api_fuel sels) (Env ns false) sels (get_tag_descendants cx p false)
+              (if (limit <? 1)%Z then None else Some (Z.to_nat limit)).
+Proof. exact api_select_history_free. Qed.
+Print Assumptions C03_select_is_filter_by_match.
+
+Theorem C03_select_all_is_filter : forall bidi cx fuel e sels l r,
+  select_pure bidi cx fuel e sels l None = Ok r ->
+  r = filter (fun q => match fresh bidi cx fuel e sels q with Ok true => true | _ => false end) l.
+Proof. exact select_pure_filter. Qed.
+Print Assumptions C03_select_all_is_filter.
+
+Theorem C03_filter_is_filter_by_match : forall bidi t ns sels p, valid_target t p = true ->
+  let cx := mk_ctx t p in
+  api_filter bidi t ns sels p = select_pure bidi cx (api_fuel sels) (Env ns false) sels (elem_children t p) None.
+Proof. exact api_filter_history_free. Qed.
+Print Assumptions C03_filter_is_filter_by_match.
+
+Theorem C03_closest_is_nearest_match : forall bidi t ns sels p, valid_target t p = true ->
+  let cx := mk_ctx t p in
+  api_closest bidi t ns sels p = closest_pure bidi cx (api_fuel sels) (Env ns false) sels (length p) p.
+Proof. exact api_closest_history_free. Qed.
+Print Assumptions C03_closest_is_nearest_match.
